@@ -239,7 +239,7 @@ PLANS['C01'] = {'quick': [ALL_D2, OPERANDS_Q, SHORTCIRCUIT_Q, PROTO_Q], 'thoroug
 
 
 # optional chains
-OPTCHAIN_Q = dict(scenario='block_expr', args=dict(policy=expr_profile([['OptChain'], ['OptChain', 'Ident', 'Call', 'Member'], ['OptChain', 'Ident', 'Member'], ['Ident']], max_args=(0, 1, 0, 0), props=['substring', 'foo', 'prototype'], names=['a'], op_budget=4),
+OPTCHAIN_Q = dict(scenario='block_expr', args=dict(policy=expr_profile([['OptChain'], ['OptChain', 'Ident', 'Call', 'Member'], ['OptChain', 'Ident', 'Member'], ['Ident', 'Member'], ['Ident']], max_args=(0, 1, 0, 0, 0), props=['substring', 'foo', 'prototype'], names=['a'], op_budget=4),
                                                    config=[dict(src='plusOperator', dst=None, operator=True, awc=False), dict(src='substring', dst='stringSubstring', operator=False, awc=False)]),
                   label='optional chains of up to 3 links (member / call links, `optional` flags symbolic), method names in {substring (configured), foo}, <= 4 non-leaf nodes')
 for p in ('C01', 'C02', 'C03', 'C06', 'C12', 'C13', 'C15'):
